@@ -219,6 +219,31 @@ func c16Work(c *mc.Ctx) {
 			run(3, map[string]any{"m": map[string]any{"in": obj}, "z": []any{arr}})
 		}
 	}
+	// wide containers: widths around every power of two from 2^12 to 2^16 (thorough 2^20)
+	maxK := 16
+	if c.Tier == "thorough" {
+		maxK = 20
+	}
+	for k := 12; k <= maxK; k++ {
+		for _, n := range []int{1<<k - 1, 1 << k, 1<<k + 1, 1<<k + 1<<(k-4)} {
+			if c.Expired() {
+				break
+			}
+			c.Heartbeat()
+			arr := make([]any, n)
+			obj := make(map[string]any, n)
+			for i := range arr {
+				arr[i] = i % 5
+				obj[fmt.Sprintf("k%d", i)] = i
+			}
+			c.Dim("wide")
+			run(1, arr)
+			run(2, []any{arr, "after"})
+			run(2, map[string]any{"a": arr, "b": "x"})
+			run(1, obj)
+			run(2, []any{obj, "after"})
+		}
+	}
 	// depth 3: wrap depth-2 containers
 	for i, t := range d1 {
 		if c.Tier != "thorough" && i%7 != 0 {
